@@ -82,6 +82,9 @@ func Solve(o *Obligation, cfg SolverCfg, id int) Result {
 		res.Output = o.Src
 		return res
 	}
+	if o.Cover && cfg.Timeout > 3*time.Second {
+		cfg.Timeout = 3 * time.Second // reachability covers only need to avoid 'unsat'
+	}
 	q := o.Query(cfg.Models)
 	file := filepath.Join(cfg.Scratch, fmt.Sprintf("q%d.smt2", id))
 	if err := os.WriteFile(file, []byte(q), 0o644); err != nil {
